@@ -1,5 +1,811 @@
 package main
 
+// Replay: turn a solver model (or a random search) into a Go test that runs the REAL function and
+// evaluates the violated clause natively with the executable spec functions. The test is injected
+// with `go test -overlay` — nothing is written into the repository.
+
+import (
+	"encoding/json"
+	"fmt"
+	"go/types"
+	"math/big"
+	"os"
+	"os/exec"
+	"path/filepath"
+	"regexp"
+	"sort"
+	"strings"
+)
+
+type probe struct {
+	name string
+	term *Term
+}
+
+const probeElems = 40
+
+// probeVal collects the terms whose model values describe Go value v of type t at entry.
+func (x *Exec) probeVal(st *State, name string, v Val, t types.Type, depth int, out *[]probe) {
+	switch u := t.Underlying().(type) {
+	case *types.Basic:
+		if isString(t) {
+			*out = append(*out, probe{name + ".len", x.c.App("str_len", v.T)})
+			for i := 0; i < probeElems; i++ {
+				*out = append(*out, probe{fmt.Sprintf("%s[%d]", name, i), x.c.Select(x.c.App("str_bytes", v.T), x.idxLit(int64(i)))})
+			}
+			return
+		}
+		if v.T != nil {
+			*out = append(*out, probe{name, v.T})
+		}
+	case *types.Slice:
+		el := u.Elem()
+		if isObjType(el) || isSliceT(el) || !v.IsSlice() {
+			return
+		}
+		if _, ok := el.Underlying().(*types.Basic); !ok {
+			return
+		}
+		*out = append(*out, probe{name + ".len", v.Len}, probe{name + ".nil", x.c.Eq(v.Arr, x.c.Int(0))})
+		for i := 0; i < probeElems; i++ {
+			e := x.loadElem(st, v.Arr, x.idxAdd(v.Off, x.idxLit(int64(i))), el)
+			if e.T != nil && !isString(el) {
+				*out = append(*out, probe{fmt.Sprintf("%s[%d]", name, i), e.T})
+			}
+		}
+	case *types.Pointer:
+		*out = append(*out, probe{name + ".nil", x.c.Eq(v.T, x.c.Int(0))})
+		if depth <= 0 {
+			return
+		}
+		if isObjType(u.Elem()) {
+			x.probeVal(st, name, Val{T: v.T, Typ: u.Elem()}, u.Elem(), depth, out)
+		}
+	case *types.Struct:
+		sk := typeKey(t)
+		for i := 0; i < u.NumFields(); i++ {
+			f := u.Field(i)
+			if f.Name() == "_" {
+				continue
+			}
+			fv := x.loadField(st, v.T, sk, f.Name(), f.Type())
+			x.probeVal(st, name+"."+f.Name(), fv, f.Type(), depth-1, out)
+		}
+	case *types.Array:
+		el := u.Elem()
+		if isObjType(el) || isSliceT(el) || u.Len() > 64 {
+			return
+		}
+		for i := int64(0); i < u.Len(); i++ {
+			e := x.loadElem(st, v.T, x.idxLit(i), el)
+			if e.T != nil {
+				*out = append(*out, probe{fmt.Sprintf("%s[%d]", name, i), e.T})
+			}
+		}
+	}
+}
+
+func (x *Exec) entryProbes() (ps []probe) {
+	defer func() {
+		if r := recover(); r != nil {
+			if _, ok := r.(*Abort); !ok {
+				panic(r)
+			}
+			ps = nil
+		}
+	}()
+	if x.entry == nil {
+		return nil
+	}
+	st := x.entry.clone()
+	x.noOblig++
+	defer func() { x.noOblig-- }()
+	sig := x.conSig
+	var out []probe
+	add := func(p *types.Var) {
+		if p == nil || p.Name() == "" || p.Name() == "_" {
+			return
+		}
+		v, ok := st.vars[p]
+		if !ok {
+			return
+		}
+		if x.boxed[p] && !isObjType(p.Type()) {
+			v = x.load(st, LV{kind: lvCell, ref: v.T, typ: p.Type()})
+		}
+		x.probeVal(st, p.Name(), v, p.Type(), 3, &out)
+	}
+	add(sig.Recv())
+	for i := 0; i < sig.Params().Len(); i++ {
+		add(sig.Params().At(i))
+	}
+	// package-level configuration pointers used by many contracts
+	return out
+}
+
+// modelValues re-runs a solver on the obligation with get-value for the probes.
+func modelValues(fr *FuncResult, o *Obligation, probes []probe) map[string]string {
+	if len(probes) == 0 {
+		return nil
+	}
+	x := fr.Exec
+	var terms []*Term
+	for _, p := range probes {
+		terms = append(terms, p.term)
+	}
+	as := append(append([]*Term{}, x.strLitFacts()...), o.Assumptions...)
+	sc := fr.Ctx.BuildScript(as, o.Goal, terms, ScriptOpts{Opaque: o.Opaque})
+	file := filepath.Join(scratchDir, "model.smt2")
+	os.WriteFile(file, []byte(sc.Text), 0o644)
+	defer os.Remove(file)
+	bins := [][]string{{"z3-new", "-T:20", file}, {"/usr/bin/z3", "-T:20", file}, {"cvc5", "--tlimit=20000", "--produce-models", file}}
+	if strings.HasPrefix(o.Backend, "z3-4") {
+		bins[0], bins[1] = bins[1], bins[0]
+	} else if strings.HasPrefix(o.Backend, "cvc5") {
+		bins[0], bins[2] = bins[2], bins[0]
+	}
+	for _, b := range bins {
+		out, _ := exec.Command(b[0], b[1:]...).CombinedOutput()
+		txt := string(out)
+		if !strings.HasPrefix(strings.TrimSpace(txt), "sat") {
+			continue
+		}
+		rest := txt[strings.Index(txt, "sat")+3:]
+		vals := parseGetValue(rest)
+		if len(vals) != len(probes) {
+			continue
+		}
+		m := map[string]string{}
+		for i, p := range probes {
+			m[p.name] = vals[i]
+		}
+		return m
+	}
+	return nil
+}
+
+// parseGetValue parses "((t1 v1) (t2 v2) ...)" and returns the values (as normalised text).
+func parseGetValue(s string) []string {
+	toks := tokenize(s)
+	pos := 0
+	var parse func() interface{}
+	parse = func() interface{} {
+		if pos >= len(toks) {
+			return nil
+		}
+		t := toks[pos]
+		pos++
+		if t == "(" {
+			var l []interface{}
+			for pos < len(toks) && toks[pos] != ")" {
+				l = append(l, parse())
+			}
+			pos++
+			return l
+		}
+		return t
+	}
+	top, ok := parse().([]interface{})
+	if !ok {
+		return nil
+	}
+	var out []string
+	for _, e := range top {
+		pair, ok := e.([]interface{})
+		if !ok || len(pair) != 2 {
+			return nil
+		}
+		out = append(out, sexprValue(pair[1]))
+	}
+	return out
+}
+
+func tokenize(s string) []string {
+	var toks []string
+	i := 0
+	for i < len(s) {
+		c := s[i]
+		switch {
+		case c == '(' || c == ')':
+			toks = append(toks, string(c))
+			i++
+		case c == ' ' || c == '\n' || c == '\t' || c == '\r':
+			i++
+		case c == '|':
+			j := strings.IndexByte(s[i+1:], '|')
+			if j < 0 {
+				return toks
+			}
+			toks = append(toks, s[i:i+j+2])
+			i += j + 2
+		case c == '"':
+			j := i + 1
+			for j < len(s) && s[j] != '"' {
+				j++
+			}
+			toks = append(toks, s[i:j+1])
+			i = j + 1
+		default:
+			j := i
+			for j < len(s) && !strings.ContainsRune("() \n\t\r", rune(s[j])) {
+				j++
+			}
+			toks = append(toks, s[i:j])
+			i = j
+		}
+	}
+	return toks
+}
+
+// sexprValue renders a model value as a decimal integer / true / false / opaque text.
+func sexprValue(v interface{}) string {
+	switch t := v.(type) {
+	case string:
+		if strings.HasPrefix(t, "#x") {
+			n := new(big.Int)
+			n.SetString(t[2:], 16)
+			return fmt.Sprintf("bv%d:%s", 4*(len(t)-2), n.String())
+		}
+		if strings.HasPrefix(t, "#b") {
+			n := new(big.Int)
+			n.SetString(t[2:], 2)
+			return fmt.Sprintf("bv%d:%s", len(t)-2, n.String())
+		}
+		return t
+	case []interface{}:
+		if len(t) == 2 && t[0] == "-" {
+			return "-" + sexprValue(t[1])
+		}
+		if len(t) == 3 && t[0] == "_" {
+			if s, ok := t[1].(string); ok && strings.HasPrefix(s, "bv") {
+				return fmt.Sprintf("bv%v:%s", t[2], s[2:])
+			}
+		}
+		return fmt.Sprint(t)
+	}
+	return ""
+}
+
 func parseModelValues(o *Obligation) map[string]string { return nil }
-func tryReplay(p *Program, o *Obligation, rf *ReplayFile, frs []*FuncResult) {}
-func runReplayTest(fn, src string) (string, bool) { return "", false }
+
+// goInt renders a model value as a Go literal of integer type t.
+func goIntLit(val string, t types.Type) (string, bool) {
+	w, signed, ok := intInfo(t)
+	if !ok {
+		return "", false
+	}
+	n := new(big.Int)
+	if strings.HasPrefix(val, "bv") {
+		i := strings.Index(val, ":")
+		if _, ok := n.SetString(val[i+1:], 10); !ok {
+			return "", false
+		}
+		if signed {
+			half := new(big.Int).Lsh(big.NewInt(1), uint(w-1))
+			if n.Cmp(half) >= 0 {
+				n.Sub(n, new(big.Int).Lsh(big.NewInt(1), uint(w)))
+			}
+		}
+	} else if _, ok := n.SetString(val, 10); !ok {
+		return "", false
+	}
+	return n.String(), true
+}
+
+type replayGen struct {
+	vals    map[string]string
+	pkg     *types.Package
+	imports map[string]string
+	ok      bool
+	why     string
+}
+
+func (g *replayGen) qual(p *types.Package) string {
+	if p == g.pkg {
+		return ""
+	}
+	g.imports[p.Path()] = p.Name()
+	return p.Name()
+}
+
+func (g *replayGen) typeStr(t types.Type) string { return types.TypeString(t, g.qual) }
+
+func (g *replayGen) lenOf(name string) (int, bool) {
+	v, ok := g.vals[name+".len"]
+	if !ok {
+		return 0, false
+	}
+	s, ok := goIntLit(v, types.Typ[types.Int])
+	if !ok {
+		return 0, false
+	}
+	var n int
+	fmt.Sscanf(s, "%d", &n)
+	return n, true
+}
+
+// expr builds a Go expression constructing the model's value for `name` of type t.
+func (g *replayGen) expr(name string, t types.Type, depth int) string {
+	switch u := t.Underlying().(type) {
+	case *types.Basic:
+		if isString(t) {
+			n, ok := g.lenOf(name)
+			if !ok || n < 0 || n > probeElems {
+				g.ok, g.why = false, fmt.Sprintf("string %s has length %d in the model (replay builds at most %d bytes)", name, n, probeElems)
+				return `""`
+			}
+			var bs []string
+			for i := 0; i < n; i++ {
+				b, _ := goIntLit(g.vals[fmt.Sprintf("%s[%d]", name, i)], types.Typ[types.Uint8])
+				if b == "" {
+					b = "0"
+				}
+				bs = append(bs, b)
+			}
+			return fmt.Sprintf("%s([]byte{%s})", g.typeStr(t), strings.Join(bs, ", "))
+		}
+		if isBool(t) {
+			if g.vals[name] == "true" {
+				return "true"
+			}
+			return "false"
+		}
+		if lit, ok := goIntLit(g.vals[name], t); ok {
+			return fmt.Sprintf("%s(%s)", g.typeStr(t), lit)
+		}
+		return fmt.Sprintf("*new(%s)", g.typeStr(t))
+	case *types.Slice:
+		if g.vals[name+".nil"] == "true" {
+			return fmt.Sprintf("%s(nil)", g.typeStr(t))
+		}
+		n, ok := g.lenOf(name)
+		if !ok {
+			return fmt.Sprintf("%s(nil)", g.typeStr(t))
+		}
+		if n < 0 || n > probeElems {
+			g.ok, g.why = false, fmt.Sprintf("slice %s has length %d in the model (replay builds at most %d elements)", name, n, probeElems)
+			return fmt.Sprintf("%s(nil)", g.typeStr(t))
+		}
+		var es []string
+		for i := 0; i < n; i++ {
+			es = append(es, g.expr(fmt.Sprintf("%s[%d]", name, i), u.Elem(), depth-1))
+		}
+		return fmt.Sprintf("%s{%s}", g.typeStr(t), strings.Join(es, ", "))
+	case *types.Pointer:
+		if g.vals[name+".nil"] == "true" || depth <= 0 {
+			return "nil"
+		}
+		if isStruct(u.Elem()) {
+			return "&" + g.expr(name, u.Elem(), depth)
+		}
+		return "nil"
+	case *types.Struct:
+		var fs []string
+		for i := 0; i < u.NumFields(); i++ {
+			f := u.Field(i)
+			if f.Name() == "_" {
+				continue
+			}
+			switch f.Type().Underlying().(type) {
+			case *types.Basic, *types.Slice, *types.Pointer, *types.Struct, *types.Array:
+				if !f.Exported() && f.Pkg() != g.pkg {
+					continue
+				}
+				if _, ok := f.Type().Underlying().(*types.Pointer); ok && depth <= 1 {
+					continue
+				}
+				fs = append(fs, fmt.Sprintf("%s: %s", f.Name(), g.expr(name+"."+f.Name(), f.Type(), depth-1)))
+			}
+		}
+		return fmt.Sprintf("%s{%s}", g.typeStr(t), strings.Join(fs, ", "))
+	case *types.Array:
+		if u.Len() > 64 {
+			return fmt.Sprintf("%s{}", g.typeStr(t))
+		}
+		var es []string
+		for i := int64(0); i < u.Len(); i++ {
+			es = append(es, g.expr(fmt.Sprintf("%s[%d]", name, i), u.Elem(), depth-1))
+		}
+		return fmt.Sprintf("%s{%s}", g.typeStr(t), strings.Join(es, ", "))
+	}
+	return fmt.Sprintf("*new(%s)", g.typeStr(t))
+}
+
+var reOldCall = regexp.MustCompile(`\bold\(`)
+
+// nativeClause rewrites a clause into plain Go: ==> desugared, old(e) replaced by temporaries.
+func nativeClause(text string) (expr string, olds []string) {
+	text = desugarImplies(text)
+	for {
+		loc := reOldCall.FindStringIndex(text)
+		if loc == nil {
+			break
+		}
+		// find matching paren
+		depth := 0
+		end := -1
+		for i := loc[1] - 1; i < len(text); i++ {
+			if text[i] == '(' {
+				depth++
+			} else if text[i] == ')' {
+				depth--
+				if depth == 0 {
+					end = i
+					break
+				}
+			}
+		}
+		if end < 0 {
+			break
+		}
+		inner := text[loc[1]:end]
+		olds = append(olds, inner)
+		text = text[:loc[0]] + fmt.Sprintf("__old%d", len(olds)-1) + text[end+1:]
+	}
+	return text, olds
+}
+
+func replayableType(t types.Type, depth int) bool {
+	switch u := t.Underlying().(type) {
+	case *types.Basic:
+		return !isFloat(t)
+	case *types.Slice:
+		_, ok := u.Elem().Underlying().(*types.Basic)
+		return ok && !isString(u.Elem())
+	case *types.Pointer:
+		return depth > 0 && isStruct(u.Elem()) && replayableType(u.Elem(), depth-1)
+	case *types.Struct:
+		return true
+	case *types.Array:
+		return u.Len() <= 64
+	}
+	return false
+}
+
+// buildReplayTest returns the test source for the given model values.
+func buildReplayTest(fr *FuncResult, o *Obligation, vals map[string]string) (src string, note string) {
+	con := fr.Contract
+	sig := con.Fn.Type().(*types.Signature)
+	g := &replayGen{vals: vals, pkg: con.Pkg.Types, imports: map[string]string{}, ok: true}
+	var b strings.Builder
+	var body strings.Builder
+	decl := func(p *types.Var) bool {
+		if p.Name() == "" || p.Name() == "_" {
+			return false
+		}
+		if !replayableType(p.Type(), 3) {
+			g.ok, g.why = false, fmt.Sprintf("parameter %s of type %s cannot be built from a model (needs a state builder)", p.Name(), g.typeStr(p.Type()))
+			return false
+		}
+		fmt.Fprintf(&body, "\tvar %s %s = %s\n\t_ = %s\n", p.Name(), g.typeStr(p.Type()), g.expr(p.Name(), p.Type(), 3), p.Name())
+		return true
+	}
+	if sig.Recv() != nil {
+		decl(sig.Recv())
+	}
+	var argNames []string
+	for i := 0; i < sig.Params().Len(); i++ {
+		p := sig.Params().At(i)
+		if !decl(p) {
+			g.ok = false
+			if g.why == "" {
+				g.why = "unnamed parameter"
+			}
+		}
+		if sig.Variadic() && i == sig.Params().Len()-1 {
+			argNames = append(argNames, p.Name()+"...")
+		} else {
+			argNames = append(argNames, p.Name())
+		}
+	}
+	if !g.ok {
+		return "", g.why
+	}
+	// the clause (ensures) or just the call (safety)
+	clause := ""
+	var olds []string
+	if o.Kind == "ensures" {
+		// find the clause text: all conjuncts are evaluated together
+		clause, olds = nativeClause(o.Text)
+	}
+	for i, e := range olds {
+		fmt.Fprintf(&body, "\t__old%d := %s\n\t_ = __old%d\n", i, e, i)
+	}
+	var resNames []string
+	for i := 0; i < sig.Results().Len(); i++ {
+		r := sig.Results().At(i)
+		n := r.Name()
+		if n == "" || n == "_" {
+			n = fmt.Sprintf("result%d", i)
+		}
+		resNames = append(resNames, n)
+		fmt.Fprintf(&body, "\tvar %s %s\n\t_ = %s\n", n, g.typeStr(r.Type()), n)
+	}
+	call := con.Fn.Name() + "(" + strings.Join(argNames, ", ") + ")"
+	if sig.Recv() != nil {
+		call = sig.Recv().Name() + "." + call
+	}
+	if len(resNames) > 0 {
+		call = strings.Join(resNames, ", ") + " = " + call
+	}
+	fmt.Fprintf(&body, "\tpanicked := func() (p interface{}) {\n\t\tdefer func() { p = recover() }()\n\t\t%s\n\t\treturn nil\n\t}()\n", call)
+	fmt.Fprintf(&body, "\tif panicked != nil {\n\t\tt.Fatalf(\"GOVC-REPLAY-CONFIRMED: %s panics on the model input: %%v\", panicked)\n\t}\n", con.Key)
+	if clause != "" {
+		fmt.Fprintf(&body, "\tholds := func() (ok bool) {\n\t\tdefer func() {\n\t\t\tif recover() != nil {\n\t\t\t\tok = true\n\t\t\t}\n\t\t}()\n\t\treturn %s\n\t}()\n", clause)
+		fmt.Fprintf(&body, "\tif !holds {\n\t\tt.Fatalf(\"GOVC-REPLAY-CONFIRMED: clause violated by the real code: %%s\", %q)\n\t}\n", o.Text)
+	}
+	fmt.Fprintf(&body, "\tt.Log(\"GOVC-REPLAY-NOT-REPRODUCED\")\n")
+	fmt.Fprintf(&b, "//go:build verif\n// +build verif\n\npackage %s\n\nimport (\n\t\"testing\"\n", con.Pkg.Types.Name())
+	clauseImports(fr, body.String(), g.imports)
+	var imps []string
+	for path := range g.imports {
+		imps = append(imps, path)
+	}
+	sort.Strings(imps)
+	for _, p := range imps {
+		fmt.Fprintf(&b, "\t%q\n", p)
+	}
+	fmt.Fprintf(&b, ")\n\n// replay of obligation %s\nfunc TestGovcReplay(t *testing.T) {\n%s}\n", o.Name, body.String())
+	return b.String(), ""
+}
+
+// runReplayTest injects the test with -overlay and runs it; ok = the violation was confirmed.
+func runReplayTest(fn, src string) (string, bool) {
+	pkgShort := fn[:strings.Index(fn, ".")]
+	repo := repoDir()
+	pkgDir := filepath.Join(repo, pkgShort)
+	testPath := filepath.Join(pkgDir, "zz_govc_replay_test.go")
+	os.MkdirAll(scratchDir, 0o755)
+	srcFile := filepath.Join(scratchDir, "replay_test.go")
+	os.WriteFile(srcFile, []byte(src), 0o644)
+	ov := map[string]map[string]string{"Replace": {testPath: srcFile}}
+	ovData, _ := json.Marshal(ov)
+	ovFile := filepath.Join(scratchDir, "overlay.json")
+	os.WriteFile(ovFile, ovData, 0o644)
+	cmd := exec.Command("go", "test", "-tags", "verif", "-overlay", ovFile, "-vet=off", "-count=1", "-timeout", "60s", "-run", "^TestGovcReplay$", "./"+pkgShort)
+	cmd.Dir = repo
+	cmd.Env = append(os.Environ(), "GOFLAGS=-mod=mod", "GOPROXY=off", "GOSUMDB=off", "GOTOOLCHAIN=local")
+	out, _ := cmd.CombinedOutput()
+	txt := string(out)
+	return truncate(txt, 4000), strings.Contains(txt, "GOVC-REPLAY-CONFIRMED")
+}
+
+func tryReplay(p *Program, o *Obligation, rf *ReplayFile, frs []*FuncResult) {
+	var fr *FuncResult
+	for _, f := range frs {
+		for _, oo := range f.Obls {
+			if oo == o {
+				fr = f
+			}
+		}
+	}
+	if fr == nil || fr.Exec == nil {
+		rf.ReplayNote = "no function context for this obligation (extra obligation)"
+		return
+	}
+	if o.Kind != "ensures" && o.Kind != "safety" {
+		rf.ReplayNote = "obligation kind " + o.Kind + " describes an intermediate state; no direct replay"
+		replayBySearch(fr, o, rf)
+		return
+	}
+	if o.Status != "sat" {
+		rf.ReplayNote = "solver gave no model (" + o.Status + ")"
+		replayBySearch(fr, o, rf)
+		return
+	}
+	probes := fr.Exec.entryProbes()
+	vals := modelValues(fr, o, probes)
+	if vals == nil {
+		rf.ReplayNote = "could not extract model values"
+		replayBySearch(fr, o, rf)
+		return
+	}
+	rf.ModelValues = map[string]string{}
+	for k, v := range vals {
+		if !strings.Contains(k, "[") || len(rf.ModelValues) < 200 {
+			rf.ModelValues[k] = v
+		}
+	}
+	src, note := buildReplayTest(fr, o, vals)
+	if src == "" {
+		rf.ReplayNote = note
+		replayBySearch(fr, o, rf)
+		return
+	}
+	rf.TestSource = src
+	out, ok := runReplayTest(o.Func, src)
+	rf.TestOutput = out
+	if ok {
+		rf.Replay = "confirmed"
+		return
+	}
+	rf.Replay = "not-reproduced"
+	replayBySearch(fr, o, rf)
+}
+
+// replayBySearch: for functions whose parameters are integers, booleans, strings and slices of
+// integers, run the real function on random inputs and evaluate every ensures clause natively.
+func replayBySearch(fr *FuncResult, o *Obligation, rf *ReplayFile) {
+	con := fr.Contract
+	sig := con.Fn.Type().(*types.Signature)
+	if sig.Recv() != nil || len(con.Ensures) == 0 {
+		return
+	}
+	g := &replayGen{pkg: con.Pkg.Types, imports: map[string]string{}, ok: true}
+	var gen strings.Builder
+	var argNames []string
+	for i := 0; i < sig.Params().Len(); i++ {
+		p := sig.Params().At(i)
+		if p.Name() == "" || p.Name() == "_" {
+			return
+		}
+		ts := g.typeStr(p.Type())
+		switch u := p.Type().Underlying().(type) {
+		case *types.Basic:
+			switch {
+			case isString(p.Type()):
+				fmt.Fprintf(&gen, "\t\t%s := %s(govcRandBytes(rng))\n", p.Name(), ts)
+			case isBool(p.Type()):
+				fmt.Fprintf(&gen, "\t\t%s := %s(rng.Intn(2) == 0)\n", p.Name(), ts)
+			default:
+				if _, _, ok := intInfo(p.Type()); !ok {
+					return
+				}
+				fmt.Fprintf(&gen, "\t\t%s := %s(govcRandInt(rng))\n", p.Name(), ts)
+			}
+		case *types.Slice:
+			b, ok := u.Elem().Underlying().(*types.Basic)
+			if !ok || b.Info()&types.IsInteger == 0 {
+				return
+			}
+			if b.Kind() == types.Uint8 {
+				fmt.Fprintf(&gen, "\t\t%s := %s(govcRandBytes(rng))\n", p.Name(), ts)
+			} else {
+				fmt.Fprintf(&gen, "\t\tvar %s %s\n\t\tfor _, b := range govcRandBytes(rng) { %s = append(%s, %s(b)) }\n", p.Name(), ts, p.Name(), p.Name(), g.typeStr(u.Elem()))
+			}
+		default:
+			return
+		}
+		fmt.Fprintf(&gen, "\t\t_ = %s\n", p.Name())
+		argNames = append(argNames, p.Name())
+	}
+	var resNames []string
+	var resDecl strings.Builder
+	for i := 0; i < sig.Results().Len(); i++ {
+		r := sig.Results().At(i)
+		n := r.Name()
+		if n == "" || n == "_" {
+			n = fmt.Sprintf("result%d", i)
+		}
+		resNames = append(resNames, n)
+		fmt.Fprintf(&resDecl, "\t\tvar %s %s\n\t\t_ = %s\n", n, g.typeStr(r.Type()), n)
+	}
+	var reqs, checks strings.Builder
+	for _, rq := range con.Requires {
+		e, olds := nativeClause(rq.Text)
+		if len(olds) > 0 {
+			return
+		}
+		fmt.Fprintf(&reqs, "\t\tif !govcHolds(func() bool { return %s }) { continue }\n", e)
+	}
+	var oldDecl strings.Builder
+	nOld := 0
+	for _, en := range con.Ensures {
+		e, olds := nativeClause(en.Text)
+		for i, oe := range olds {
+			e = strings.ReplaceAll(e, fmt.Sprintf("__old%d", i), fmt.Sprintf("__old%d", nOld+i))
+			fmt.Fprintf(&oldDecl, "\t\t__old%d := %s\n\t\t_ = __old%d\n", nOld+i, oe, nOld+i)
+		}
+		nOld += len(olds)
+		fmt.Fprintf(&checks, "\t\tif !govcHolds(func() bool { return %s }) {\n\t\t\tt.Fatalf(\"GOVC-REPLAY-CONFIRMED: clause %%q violated by the real code on input %%#v\", %q, []interface{}{%s})\n\t\t}\n", e, en.Text, strings.Join(argNames, ", "))
+	}
+	call := con.Fn.Name() + "(" + strings.Join(argNames, ", ") + ")"
+	if len(resNames) > 0 {
+		call = strings.Join(resNames, ", ") + " = " + call
+	}
+	var b strings.Builder
+	fmt.Fprintf(&b, "//go:build verif\n// +build verif\n\npackage %s\n\nimport (\n\t\"math/rand\"\n\t\"testing\"\n", con.Pkg.Types.Name())
+	clauseImports(fr, reqs.String()+checks.String()+oldDecl.String(), g.imports)
+	delete(g.imports, "math/rand")
+	delete(g.imports, "testing")
+	var imps []string
+	for path := range g.imports {
+		imps = append(imps, path)
+	}
+	sort.Strings(imps)
+	for _, p := range imps {
+		fmt.Fprintf(&b, "\t%q\n", p)
+	}
+	fmt.Fprintf(&b, `)
+
+func govcRandBytes(rng *rand.Rand) []byte {
+	lens := []int{0, 1, 2, 3, 7, 8, 15, 16, 17, 31, 32, 33, 255, 256, 257, 511, 512, 513, 1023, 1024, 1025, 1026, 2048, 4097}
+	n := lens[rng.Intn(len(lens))]
+	if rng.Intn(3) == 0 {
+		n = rng.Intn(64)
+	}
+	b := make([]byte, n)
+	for i := range b {
+		switch rng.Intn(4) {
+		case 0:
+			b[i] = byte(0x80 + rng.Intn(0x80))
+		case 1:
+			b[i] = byte(rng.Intn(16))
+		default:
+			b[i] = byte(rng.Intn(256))
+		}
+	}
+	return b
+}
+
+func govcRandInt(rng *rand.Rand) int64 {
+	edge := []int64{0, 1, -1, 2, 15, 16, 17, 255, 256, 257, 1023, 1024, 1025, 65535, 65536, 1 << 31, -(1 << 31), 1<<31 - 1, 1<<32 - 1, 1 << 32, 1<<63 - 1, -(1 << 63)}
+	switch rng.Intn(3) {
+	case 0:
+		return edge[rng.Intn(len(edge))]
+	case 1:
+		return int64(rng.Intn(1 << 16))
+	}
+	return int64(rng.Uint64())
+}
+
+func govcHolds(f func() bool) (ok bool) {
+	defer func() {
+		if recover() != nil {
+			ok = true // the clause itself is not evaluable on this input: not counted
+		}
+	}()
+	return f()
+}
+
+// random search for a violating input of %s (obligation %s)
+func TestGovcReplay(t *testing.T) {
+	rng := rand.New(rand.NewSource(1))
+	for iter := 0; iter < 20000; iter++ {
+%s%s%s%s		panicked := func() (p interface{}) {
+			defer func() { p = recover() }()
+			%s
+			return nil
+		}()
+		if panicked != nil {
+			t.Fatalf("GOVC-REPLAY-CONFIRMED: panic %%v on input %%#v", panicked, []interface{}{%s})
+		}
+%s	}
+	t.Log("GOVC-REPLAY-NOT-REPRODUCED")
+}
+`, con.Key, o.Name, gen.String(), reqs.String(), oldDecl.String(), resDecl.String(), call, strings.Join(argNames, ", "), checks.String())
+	src := b.String()
+	out, ok := runReplayTest(o.Func, src)
+	if ok {
+		rf.Replay = "confirmed"
+		rf.ReplayNote += "; failing input found by random search over the function's inputs (every ensures clause evaluated natively)"
+		rf.TestSource = src
+		rf.TestOutput = out
+	} else if rf.TestSource == "" {
+		rf.ReplayNote += "; random search (20000 inputs) found no failing input"
+		rf.TestOutput = truncate(out, 1500)
+	}
+}
+
+// clauseImports: packages imported by the package's contract files and mentioned in the text.
+func clauseImports(fr *FuncResult, text string, imports map[string]string) {
+	pkg := fr.Contract.Pkg
+	for i, f := range pkg.Syntax {
+		if !isContractFile(pkg.CompiledGoFiles[i]) {
+			continue
+		}
+		for _, im := range f.Imports {
+			path := strings.Trim(im.Path.Value, "\"")
+			name := filepath.Base(path)
+			if im.Name != nil {
+				name = im.Name.Name
+			}
+			if ip, ok := pkg.Imports[path]; ok && im.Name == nil {
+				name = ip.Name
+			}
+			if regexp.MustCompile(`\b` + regexp.QuoteMeta(name) + `\.`).MatchString(text) {
+				imports[path] = name
+			}
+		}
+	}
+}
